@@ -77,7 +77,7 @@ func runFixturesImpl(root string) error {
 	ifaceEqAudit(fc, "FX-PAN", []string{"pkg/fixture/pan"}, nil)
 	uncheckedAssertAudit(fc, "FX-PAN", []string{"pkg/fixture/pan"}, nil)
 	v = verdicts()
-	if err := expect("PAN", v, []string{"BadEq", "BadAssert"}, []string{"GoodEqConst", "GoodEqGuarded", "GoodAssert"}); err != nil {
+	if err := expect("PAN", v, []string{"BadEq", "BadAssert", "BadAtomicLoadMixed"}, []string{"GoodEqConst", "GoodEqGuarded", "GoodAssert", "GoodAtomicLoad"}); err != nil {
 		return err
 	}
 	// BND
